@@ -30,7 +30,7 @@ func (x *Exec) buildFrame(st *State) {
 	for _, loc := range c.Modifies {
 		loc = strings.TrimSpace(loc)
 		switch {
-		case loc == "heap":
+		case loc == "heap" || loc == "world":
 			st.frame = append(st.frame, frameLoc{Heap: true})
 		case strings.HasPrefix(loc, "ghost "):
 			g := strings.TrimSpace(strings.TrimPrefix(loc, "ghost "))
@@ -39,7 +39,7 @@ func (x *Exec) buildFrame(st *State) {
 				if e, err := ParseExpr(g[i+1 : len(g)-1]); err == nil {
 					v := sc.eval(e)
 					if v.K == VAddr {
-						v = st.addrToRef(v)
+						v = Value{K: VRef, T: v.A.Root}
 					}
 					root = v.T
 				}
